@@ -209,7 +209,7 @@ func (w *Worker) loop() {
 				}
 			}
 			if p.Witness != nil && len(ex.Witnesses) < ex.Cfg.Witnesses {
-				ex.Witnesses = append(ex.Witnesses, map[string]interface{}{"model": p.Witness, "observed": p.Observed, "decisions": len(p.trace)})
+				ex.Witnesses = append(ex.Witnesses, map[string]interface{}{"model": p.Witness, "observed": p.Observed, "decisions": len(p.trace), "findings": sortedKeys(p.Findings)})
 			}
 		case OutInfeasible:
 			ex.PathsInfeasible++
@@ -289,7 +289,7 @@ func (w *Worker) close() {
 }
 
 func (w *Worker) runPath(prefix []Decision) *Path {
-	p := &Path{w: w, prefix: prefix, nameCtr: map[string]int{}, symByName: map[string]*smt.Term{},
+	p := &Path{w: w, prefix: prefix, nameCtr: map[string]int{}, extra: map[string]uint64{}, symByName: map[string]*smt.Term{},
 		decided: map[int64]bool{}, hasDecided: map[int64]bool{}, Reached: map[string]bool{}, Findings: map[string]bool{}}
 	w.path = p
 	w.globals = map[*ssa.Global]*Value{}
